@@ -1326,3 +1326,24 @@ Proof.
   vm_compute in E'. unfold out_of in E'. cbn [bind] in E'.
   destruct (sub_into_lines s1); cbn [bind] in E'; try discriminate. reflexivity.
 Qed.
+
+(* the statement is one-directional for a reason: <blockquote>ab c d</blockquote> at width 2 is
+   TooNarrow without the flag and Ok with it *)
+Example exa_converse_fails :
+  render_tree plain_deco 3 exb_opts 2 cexb_tree = TooNarrow /\
+  out_of (render_tree plain_deco 3 (with_overflow exb_opts) 2 cexb_tree)
+    = Ok [[62;32;97;98]; [62;32;99;32;100]].
+Proof. split; vm_compute; reflexivity. Qed.
+
+(* why the theorem speaks about successful flushes only: render_tree leaves the last word
+   pending; a width-2 character at width 1 renders Ok without the flag, but its flush
+   (sub_into_lines, done by the routes) is TooNarrow -- with the flag it is Ok.  So
+   `sub_into_lines s2 = sub_into_lines s1` does NOT hold for all successful renderings;
+   through the routes (which flush) the statement is the plain one. *)
+Definition exa_wide : rnode := ex_n (IText [mk 19990 2]).
+Definition exa_s1w : subr :=
+  match render_tree plain_deco 3 exb_opts 1 exa_wide with Ok s => s | _ => sub_new 0 exb_opts end.
+Example exa_pending_flush :
+  render_tree plain_deco 3 exb_opts 1 exa_wide = Ok exa_s1w /\ sub_into_lines exa_s1w = TooNarrow /\
+  out_of (render_tree plain_deco 3 (with_overflow exb_opts) 1 exa_wide) = Ok [[19990]].
+Proof. split; [|split]; vm_compute; reflexivity. Qed.
